@@ -10,7 +10,10 @@ package main
 //     what lies beyond len() is the remainder of an earlier, longer value); the parameters of one call lie back to back
 //     in it, so the spare capacity of one parameter IS the next parameter (a caller that keeps Ni|Nr|g^ir in one buffer),
 //   - after the call returns the buffer is overwritten (0xEE): whatever the library kept must be its own copy,
-//   - an empty value is offered twice, as an empty non-nil slice and as nil, with the same expectations.
+//   - an empty value is offered twice, as an empty non-nil slice and as nil, with the same expectations,
+//   - for pure functions a twin copy of the inputs lies directly behind them and the call is repeated on the twin: a call
+//     that writes past the end of a parameter (append onto a caller's slice) damages the twin and shows in the repetition.
+// Octet strings a call handed out (keys, public values, codes) are held and compared again after every later step.
 // Only parameters are treated this way for which today's code takes a copy / computes a pure result and a property
 // demands a function of the value (C08 C09 C10 C14 C16); key material handed to constructors is not.
 
@@ -25,7 +28,12 @@ var arenaKeys = map[string][]string{
 	"dh_shared":      {"x", "peer"},
 	"dh_calc":        {"peer"},
 	"ike_derive":     {"nonce", "secret"},
+	"aka_mac":        {"key"},
+	"cipher_new":     {"key"},
 }
+
+// acts that are run a second time on the twin copy of their inputs (pure, repeatable calls)
+var twinActs = map[string]bool{"aka_prf": true, "derive_child": true, "dh_pub": true, "dh_shared": true}
 
 // acts that are repeated with nil in place of empty (they must be repeatable: no state is changed by a call)
 var nilActs = map[string]bool{"aka_prf": true, "derive_child": true, "cipher_encrypt": true, "cipher_decrypt": true, "dh_calc": true}
@@ -38,16 +46,31 @@ func (e *Env) present(act string, args J, emptyAsNil bool) J {
 		return args
 	}
 	out := J{}
+	twin := J{}
 	for k, v := range args {
 		out[k] = v
+		twin[k] = v
 	}
 	if e.arena == nil {
 		e.arena = map[string][]byte{}
+		e.twins = map[string]J{}
+		e.used = map[string]int{}
 	}
 	buf := e.arena[act]
 	if buf == nil {
 		buf = make([]byte, arenaCap)
 		e.arena[act] = buf
+	}
+	total := 0
+	for _, k := range ks {
+		if v, has := args[k]; has {
+			if o, err := anyToOct(v); err == nil {
+				total += len(o)
+			}
+		}
+	}
+	if 2*total > arenaCap {
+		return args
 	}
 	off := 0
 	for _, k := range ks {
@@ -56,30 +79,78 @@ func (e *Env) present(act string, args J, emptyAsNil bool) J {
 			continue
 		}
 		o, err := anyToOct(v)
-		if err != nil || off+len(o) > arenaCap {
+		if err != nil {
 			continue
 		}
 		if len(o) == 0 {
 			if emptyAsNil {
-				out[k] = Oct(nil)
+				out[k], twin[k] = Oct(nil), Oct(nil)
 			} else {
-				out[k] = Oct(make([]byte, 0))
+				out[k], twin[k] = Oct(make([]byte, 0)), Oct(make([]byte, 0))
 			}
 			continue
 		}
 		copy(buf[off:], o)
 		out[k] = Oct(buf[off : off+len(o)])
+		// the twin copy of the same value lies directly behind the parameters of this call: whatever the call writes
+		// beyond the end of its last parameter lands in it
+		copy(buf[total+off:], o)
+		twin[k] = Oct(buf[total+off : total+off+len(o)])
 		off += len(o)
 	}
+	e.twins[act] = twin
+	e.used[act] = total
 	return out
 }
 
+// scribble overwrites the parameters of the call that just returned (not the twin copy behind them).
 func (e *Env) scribble(act string) {
 	if buf := e.arena[act]; buf != nil {
-		for i := 0; i < 4096 && i < len(buf); i++ {
+		for i := 0; i < e.used[act] && i < len(buf); i++ {
 			buf[i] = 0xEE
 		}
 	}
+}
+
+func (e *Env) scribbleTwin(act string) {
+	if buf := e.arena[act]; buf != nil {
+		for i := e.used[act]; i < 2*e.used[act] && i < len(buf); i++ {
+			buf[i] = 0xEE
+		}
+	}
+}
+
+// ---- results the caller still holds: octet strings a call handed out stay what they were while later calls run
+
+type heldItem struct {
+	name string
+	b    []byte
+	snap []byte
+}
+
+func (e *Env) hold(name string, b []byte) {
+	if len(b) == 0 {
+		return
+	}
+	e.held = append(e.held, &heldItem{name: name, b: b, snap: append([]byte{}, b...)})
+	if len(e.held) > 400 {
+		e.held = e.held[len(e.held)-400:]
+	}
+}
+
+// checkHeld names the first held result that no longer holds what was handed out (and accepts the new contents, so that
+// one disturbance is reported once).
+func (e *Env) checkHeld() string {
+	bad := ""
+	for _, h := range e.held {
+		if string(h.b) != string(h.snap) {
+			if bad == "" {
+				bad = h.name
+			}
+			h.snap = append([]byte{}, h.b...)
+		}
+	}
+	return bad
 }
 
 func hasEmptyInput(act string, args J) bool {
